@@ -238,6 +238,17 @@ class SymCtx:
             col.refined = getattr(col, "refined", 0) + 1
             if r == "sat":
                 neg = z3.And(*extra)
+        if r == "sat" and self.eng.round_mode == "eps" and len(self.eng.rnd_cache) > 1:
+            # the eps model only bounds each rounding error; real rounding is also monotone and odd.
+            # Re-decide with those axioms over the round() applications of this path.
+            ax = self.eng.rounding_axioms()
+            extra = ax + ([neg] if neg is not None else [])
+            r2 = self.eng.check(*extra, fresh_only=True)
+            col.refined = getattr(col, "refined", 0) + 1
+            if r2 != "sat":
+                r = r2
+            else:
+                neg = z3.And(*extra)
         if r == "unsat":
             col.discharged += 1
             return True
